@@ -26,6 +26,8 @@ func c02(c *core.Check) {
 	c02CellKeys(c)
 	c02RunGlyphs(c)
 	c02FootnoteSnapshot(c)
+	c02RetryReset(c)
+	c02CancelledPublishesNothing(c)
 }
 
 func isResumeStack(t types.Type) bool {
